@@ -13,6 +13,7 @@ import (
 
 	"verif/fw"
 	"verif/gen"
+	"verif/mon"
 	"verif/sim"
 
 	cid "github.com/ipfs/go-cid"
@@ -355,10 +356,10 @@ func e2eCase(c *fw.Ctx, r *fw.Rand, idx int) {
 		}
 		for _, u := range units {
 			holders := ids
-			if !u.pin.IsPinEverywhere() {
+			if !mon.Everywhere(u.pin) {
 				holders = u.pin.Allocations
 			}
-			if u.what == "root" && !u.pin.IsPinEverywhere() {
+			if u.what == "root" && !mon.Everywhere(u.pin) {
 				if len(holders) < p.ReplicationFactorMin || len(holders) > p.ReplicationFactorMax {
 					c.Violation("C13/e2e/allocations-outside-factors", fmt.Sprintf("root pinned on %d peers, factors %d/%d", len(holders), p.ReplicationFactorMin, p.ReplicationFactorMax), detail)
 				}
